@@ -1290,21 +1290,52 @@ Proof.
   apply negb_true_iff in H. assumption.
 Qed.
 
-(* the boolean the harness evaluates on a recorded life gives the hypotheses of the theorems *)
-Lemma life_premise_spec : forall f0 d n0 mid, life_premise f0 d n0 mid = true ->
+(* the boolean the harness evaluates on a recorded life gives the hypotheses of the theorems.
+   `ow` = the added paths the caller overwrites by design ([] for a plain run; [query] with
+   obsm_key).  Audit 4 A1: the clause about the environment is per ADDED path, not per file of f0. *)
+Lemma life_premise_ow_spec : forall ow f0 d n0 mid, life_premise_ow ow f0 d n0 mid = true ->
   wf f0 /\ look f0 d = Dir /\ look f0 (d ++ [n0]) = Absent /\ forallb mid_op mid = true /\
-  (forall p c, look f0 p = File c -> forallb (fun o => negb (writes_to p o)) mid = true) /\
+  (forall p, In p (added mid) -> ~ In p ow -> forallb (fun o => negb (writes_to p o)) mid = true) /\
   (forall p, In p (requested mid) -> is_prefix (d ++ [n0]) p = false) /\
   (forall o p, In o mid -> In p (op_paths o) -> stale_in d (entries f0 d) p = false).
 Proof.
-  intros f0 d n0 mid H. unfold life_premise in H.
+  intros ow f0 d n0 mid H. unfold life_premise_ow in H.
   repeat (apply andb_true_iff in H; let X := fresh "H" in destruct H as [H X]).
   split; [apply wfb_wf; assumption|]. split; [apply n_is_dir_true; assumption|].
   split; [apply n_is_absent_true; assumption|]. split; [assumption|]. split; [|split].
-  - intros p c Hp. apply not_written. intro Hi. rewrite forallb_forall in H2. specialize (H2 p Hi).
-    rewrite Hp in H2. discriminate.
+  - intros p Hp Hno. apply not_written. intro Hi. rewrite forallb_forall in H2. specialize (H2 p Hi).
+    apply orb_true_iff in H2. destruct H2 as [H2|H2].
+    + apply negb_true_iff in H2. apply mem_false in H2. contradiction.
+    + apply mem_In in H2. contradiction.
   - intros p Hp. rewrite forallb_forall in H1. specialize (H1 p Hp). apply negb_true_iff in H1. assumption.
   - apply ops_ns_b_spec. assumption.
+Qed.
+
+Lemma life_premise_spec : forall f0 d n0 mid, life_premise f0 d n0 mid = true ->
+  wf f0 /\ look f0 d = Dir /\ look f0 (d ++ [n0]) = Absent /\ forallb mid_op mid = true /\
+  (forall p, In p (added mid) -> forallb (fun o => negb (writes_to p o)) mid = true) /\
+  (forall p, In p (requested mid) -> is_prefix (d ++ [n0]) p = false) /\
+  (forall o p, In o mid -> In p (op_paths o) -> stale_in d (entries f0 d) p = false).
+Proof.
+  intros f0 d n0 mid H. destruct (life_premise_ow_spec [] f0 d n0 mid H) as [A [B [C [D [E [F G]]]]]].
+  repeat (split; [assumption|]). split; [|split; assumption].
+  intros p Hp. apply E; [assumption|]. intros [].
+Qed.
+
+(* the premise composed with (1): on a life that meets it, every path handed to the tracker that
+   held a file and is not overwritten by design holds that file while the tracker lives and after
+   del; every OTHER file of f0 does so unless the environment wrote that very path (the CSV of an
+   earlier run that a second run rewrites; the query under obsm_key) *)
+Lemma life_premise_inputs_untouched : forall ow f0 d n0 mid, life_premise_ow ow f0 d n0 mid = true ->
+  forall p c, look f0 p = File c ->
+    (In p (added mid) /\ ~ In p ow) \/ ~ In p (written mid) ->
+    look (s_fs (alive f0 (Some d) n0 mid)) p = File c /\
+    look (s_fs (life f0 (Some d) n0 mid)) p = File c.
+Proof.
+  intros ow f0 d n0 mid H p c Hp Hc.
+  destruct (life_premise_ow_spec ow f0 d n0 mid H) as [W [HD [HA [Hm [E _]]]]].
+  apply tracker_inputs_untouched_some; try assumption.
+  destruct Hc as [[Ha Hno]|Hnw]; [apply E; assumption|apply not_written; assumption].
 Qed.
 
 (* ------------------------------------------------------------------ a life keeps the file system well formed
